@@ -37,10 +37,20 @@ func fn(name string, e string) string { return sx(name, e) }
 func lit(s string) string             { return hxs(s) }
 func cat(es ...string) string         { return sx("cat", strings.Join(es, " ")) }
 
+// outputs of tens of thousands of bytes (huge paddings) are not worth the time of the
+// list-based extracted functions
+const maxExpr = 100000
+
 func (q *qw) eq(prop, msg, e1, e2, info string) {
+	if len(e1)+len(e2) > maxExpr {
+		return
+	}
 	fmt.Fprintf(q.w, "(qeq %s %s %s %s %s)\n", prop, hxs(msg), e1, e2, hxs(info))
 }
 func (q *qw) pred(prop, msg, pred, e, info string) {
+	if len(e) > maxExpr {
+		return
+	}
 	fmt.Fprintf(q.w, "(qpred %s %s %s %s %s)\n", prop, hxs(msg), pred, e, hxs(info))
 }
 func (q *qw) truth(prop, msg string, ok bool, info string) {
@@ -327,6 +337,9 @@ func variantAct(a *Act, k int, public bool) *Act {
 	switch a.K {
 	case "ret", "write", "wstr", "us", "ubs":
 		c.S = varyString(a.S, k)
+	case "panicrt":
+		// the index that ends up in the runtime error's message is data of the unsafe operand
+		c.N = []int64{4177, 905, 31}[k%3]
 	case "ub":
 		if a.N != '\n' {
 			c.N = int64("abc"[k%3])
@@ -458,46 +471,59 @@ func c05leaf(g *vgen) (*Val, bool) {
 	}
 }
 
-// returns the value and its fmt counterpart in which unsafe leaves are Blank
+// returns the value, its fmt counterpart in which unsafe leaves are Blank, and its plain fmt counterpart
 func c05val(g *vgen, depth int, reg bool, kinds *string) (*Val, func() interface{}) {
+	v, f, _ := c05val2(g, depth, reg, kinds)
+	return v, f
+}
+
+func c05val2(g *vgen, depth int, reg bool, kinds *string) (*Val, func() interface{}, func() interface{}) {
 	r := g.rng
 	if depth > 0 && r.coin(1, 2) {
 		n := 1 + r.intn(3)
 		var es []*Val
-		var fs []func() interface{}
+		var fs, ps []func() interface{}
 		var k string
 		for i := 0; i < n; i++ {
-			e, f := c05val(g, depth-1, reg, &k)
+			e, f, pl := c05val2(g, depth-1, reg, &k)
 			es = append(es, e)
 			fs = append(fs, f)
+			ps = append(ps, pl)
 		}
+		mkAll := func(fs []func() interface{}) []interface{} {
+			out := make([]interface{}, len(fs))
+			for i, f := range fs {
+				out[i] = f()
+			}
+			return out
+		}
+		_ = mkAll
 		switch r.intn(3) {
 		case 0:
 			*kinds = ""
-			return &Val{K: "sl", GoT: "[]interface{}", Elems: es}, func() interface{} {
-				out := make([]interface{}, len(fs))
-				for i, f := range fs {
-					out[i] = f()
-				}
-				return out
-			}
+			return &Val{K: "sl", GoT: "[]interface{}", Elems: es}, func() interface{} { return mkAll(fs) }, func() interface{} { return mkAll(ps) }
 		case 1:
 			for len(es) < 2 {
-				e, f := c05val(g, depth-1, reg, &k)
+				e, f, pl := c05val2(g, depth-1, reg, &k)
 				es = append(es, e)
 				fs = append(fs, f)
+				ps = append(ps, pl)
 			}
-			es, fs = es[:2], fs[:2]
+			es, fs, ps = es[:2], fs[:2], ps[:2]
 			*kinds = ""
 			return &Val{K: "ar", GoT: "[2]interface{}", Elems: es}, func() interface{} {
-				return [2]interface{}{fs[0](), fs[1]()}
-			}
+					return [2]interface{}{fs[0](), fs[1]()}
+				}, func() interface{} {
+					return [2]interface{}{ps[0](), ps[1]()}
+				}
 		default:
 			*kinds = ""
 			// exported interface field A; the unexported field b holds a declared-safe constant
 			return &Val{K: "st", GoT: "St2", Elems: []*Val{es[0], {K: "nil"}}}, func() interface{} {
-				return St2{A: fs[0]()}
-			}
+					return St2{A: fs[0]()}
+				}, func() interface{} {
+					return St2{A: ps[0]()}
+				}
 		}
 	}
 	v, safe := c05leaf(g)
@@ -508,15 +534,50 @@ func c05val(g *vgen, depth int, reg bool, kinds *string) (*Val, func() interface
 	if (v.GoT == "RegInt" || v.GoT == "RegStr") && !reg {
 		safe = false
 	}
-	return v, func() interface{} {
+	plain := func() interface{} {
 		x := v.Build()
 		if v.K == "safe" {
 			x = v.Elems[0].Build()
 		}
+		return x
+	}
+	return v, func() interface{} {
 		if safe {
-			return x
+			return plain()
 		}
-		return Blank{x}
+		return Blank{plain()}
+	}, plain
+}
+
+// structs whose exported fields are SafeValues rendered by a method, followed by unexported
+// string fields (not interfaceable: no method, no SafeValue test; unsafe whatever precedes them).
+// The fmt counterpart keeps the line feeds of the unexported strings only.
+func lfOnly(s string) string {
+	var sb strings.Builder
+	for i := 0; i < len(s); i++ {
+		if s[i] == '\n' {
+			sb.WriteByte('\n')
+		}
+	}
+	return sb.String()
+}
+
+func c05struct(g *vgen) (*Val, func() interface{}) {
+	r := g.rng
+	mkU := func(uk int) *Val {
+		return &Val{K: "usr", UK: uk, ID: newID(), Script: []*Act{{K: "ret", S: r.pick([]string{"INFO", "lvl‹", "a b", ""})}}}
+	}
+	s1, s2 := g.str(), g.str()
+	if r.coin(1, 2) {
+		l := mkU(9) // Stringer + SafeValue
+		v := &Val{K: "st", GoT: "St4", Elems: []*Val{l, {K: "s", GoT: "string", S: s1}}}
+		return v, func() interface{} { return St4{L: l.Build().(UStrSafeValue), secret: lfOnly(s1)} }
+	}
+	l := mkU(9)
+	sv := &Val{K: "s", GoT: "SvStr", S: g.str()}
+	v := &Val{K: "st", GoT: "St5", Elems: []*Val{{K: "s", GoT: "string", S: s1}, l, sv, {K: "s", GoT: "string", S: s2}}}
+	return v, func() interface{} {
+		return St5{first: lfOnly(s1), L: l.Build().(UStrSafeValue), S: SvStr(sv.S), tail: lfOnly(s2)}
 	}
 }
 
@@ -532,7 +593,35 @@ func genQ05(w *bufio.Writer, rng *prng, n int, depth int) {
 			lits := []string{"", "a", " ", "x=", "\n", ":", "é", "%%", "‹", "›"}
 			sb.WriteString(rng.pick(lits))
 			var kinds string
-			v, f := c05val(g, depth, c.reg, &kinds)
+			if rng.coin(1, 8) {
+				// struct with unexported unsafe strings after SafeValue fields: plain directives only
+				v, f := c05struct(g)
+				switch rng.intn(3) {
+				case 0:
+					v = &Val{K: "sl", GoT: "[]interface{}", Elems: []*Val{v}}
+					f0 := f
+					f = func() interface{} { return []interface{}{f0()} }
+				case 1:
+					v = &Val{K: "ar", GoT: "[2]interface{}", Elems: []*Val{v, {K: "i", GoT: "SvInt", I: 7}}}
+					f0 := f
+					f = func() interface{} { return [2]interface{}{f0(), SvInt(7)} }
+				}
+				c.args = append(c.args, v)
+				fargs = append(fargs, f)
+				sb.WriteString(rng.pick([]string{"%v", "%+v", "%s"}))
+				continue
+			}
+			v, f, plain := c05val2(g, depth, c.reg, &kinds)
+			if v.K != "safe" && rng.coin(1, 5) {
+				// an enclosing Safe()/Unsafe() decides for everything inside, whatever the leaves declare
+				if rng.coin(1, 2) {
+					v = &Val{K: "safe", Elems: []*Val{v}}
+					f = plain
+				} else {
+					v = &Val{K: "unsafe", Elems: []*Val{v}}
+					f = func() interface{} { return Blank{plain()} }
+				}
+			}
 			c.args = append(c.args, v)
 			fargs = append(fargs, f)
 			sb.WriteByte('%')
@@ -808,7 +897,7 @@ func validAct(a *Act) bool {
 		return utf8.ValidRune(rune(a.N))
 	case "sb":
 		return a.N < 0x80
-	case "panic", "dump", "ret":
+	case "panic", "panicrt", "dump", "ret":
 		return false
 	}
 	return true
@@ -1054,7 +1143,69 @@ func genQ16(w *bufio.Writer, rng *prng, n int, depth int) {
 			c2.entry = "fprint"
 		}
 		fmt.Fprintln(w, runPCase(&c2))
+		// several Print/Printf calls in a row on one StringBuilder / one SafePrinter: the text is the
+		// concatenation of what Sprint/Sprintf give for each (formats without operands, literals
+		// ending in the middle of a UTF-8 sequence or of a marker included)
+		if i%3 == 0 {
+			genQ16seq(q, w, rng, depth)
+		}
 	}
+}
+
+func genQ16seq(q *qw, w *bufio.Writer, rng *prng, depth int) {
+	g := &vgen{rng: rng, hostile: true}
+	c := &pcase{reg: false, entry: "builder"}
+	k := 2 + rng.intn(2)
+	tails := []string{"x\xe2\x80", "\xb9y", "x\xff", "y", "a\xe2", "\x80\xb9", "‹", "›z", "\n", "é", "x\xc3", "\xa9"}
+	for j := 0; j < k; j++ {
+		switch rng.intn(4) {
+		case 0:
+			c.acts = append(c.acts, &Act{K: "printf", S: rng.pick(tails) + rng.pick(tails)})
+		case 1:
+			c.acts = append(c.acts, &Act{K: "printf", S: rng.pick(tails)})
+		case 2:
+			args, f := g.formatFor(depth, rng.intn(2))
+			c.acts = append(c.acts, &Act{K: "printf", S: f, Args: args})
+		default:
+			a := &Act{K: "print"}
+			for x := rng.intn(3); x > 0; x-- {
+				a.Args = append(a.Args, g.val(depth))
+			}
+			c.acts = append(c.acts, a)
+		}
+	}
+	info := caseInfo(c)
+	prepCase(c)
+	var parts []string
+	var bo, no string
+	panicked, _ := try(func() {
+		for _, a := range c.acts {
+			if a.K == "printf" {
+				parts = append(parts, lit(string(redact.Sprintf(a.S, buildAll(a.Args)...))))
+			} else {
+				parts = append(parts, lit(string(redact.Sprint(buildAll(a.Args)...))))
+			}
+		}
+		var sb redact.StringBuilder
+		for _, a := range c.acts {
+			applyBuilderAct(&sb, a)
+		}
+		bo = string(sb.RedactableString())
+		no = string(redact.Sprintfn(func(p redact.SafePrinter) {
+			for _, a := range c.acts {
+				runAction(a, p)
+			}
+		}))
+	})
+	if panicked {
+		return
+	}
+	q.eq("C16", "consecutive StringBuilder.Print(f) calls do not give the concatenation of the Sprint(f) results", fn("norm", lit(bo)), fn("norm", cat(parts...)), info)
+	q.eq("C16", "consecutive SafePrinter.Print(f) calls inside Sprintfn do not give the concatenation of the Sprint(f) results", fn("norm", lit(no)), fn("norm", cat(parts...)), info)
+	fmt.Fprintln(w, runPCase(c))
+	c3 := *c
+	c3.entry = "sprintfn"
+	fmt.Fprintln(w, runPCase(&c3))
 }
 
 type sfFunc func(p redact.SafePrinter)
@@ -1194,8 +1345,11 @@ func genQ11(w *bufio.Writer, rng *prng, n int, depth int) {
 		c.args = []*Val{{K: "i", GoT: "int", I: 42}, holder, {K: "s", GoT: "string", S: "tail"}}
 		args := prepCase(c)
 		var out string
-		p, _ := try(func() { out = string(redact.Sprintf(c.format, args...)) })
+		p, pv := try(func() { out = string(redact.Sprintf(c.format, args...)) })
 		info := caseInfo(c)
+		if p {
+			info += fmt.Sprintf(" panic value: %T %v hook=%v", pv, pv, c.useHook)
+		}
 		q.truth("C11", "a user method panic (plain payload) escaped", !p || panicMayPropagate(c), info)
 		if !p {
 			q.truth("C11", "text before the panicking operand intact", strings.HasPrefix(out, "PRE? ‹42› "), info)
@@ -1807,6 +1961,22 @@ func genQ17(w *bufio.Writer, rng *prng, n int, depth int) {
 					q.eq("C17", "Unsafe(err): not the error's plain text", fn("strip", lit(out)), fn("escm", lit(fout)), info)
 				}
 			}
+			// ... also when Unsafe(err) sits inside a container (reached through method dispatch)
+			if !isPanic {
+				for ci, mkc := range []func() interface{}{
+					func() interface{} { return []interface{}{redact.Unsafe(e)} },
+					func() interface{} { return map[int]interface{}{1: redact.Unsafe(e)} },
+					func() interface{} { return holder{I: redact.Unsafe(e)} },
+					func() interface{} { return []interface{}{redact.Safe(1), redact.Unsafe(e), redact.Unsafe(e)} },
+				} {
+					hookLog = nil
+					var out string
+					p, _ := try(func() { out = string(redact.Sprintf(d, mkc())) })
+					if !p {
+						q.truth("C17", fmt.Sprintf("hook called for Unsafe(err) inside a container (%d)", ci), len(hookLog) == 0 && !strings.Contains(out, "HOOK["), info+" out="+out)
+					}
+				}
+			}
 			// errors that classify themselves are not handed to the hook
 			for _, own := range []error{errSafeFormatter{"x"}, errSafeMessager{"y"}} {
 				hookLog = nil
@@ -1819,6 +1989,18 @@ func genQ17(w *bufio.Writer, rng *prng, n int, depth int) {
 				s, got := redact.HelperForErrorf("wrap: %w", e)
 				q.truth("C17", "%w operand: hook not called once with verb 'v'", len(hookLog) == 1 && hookLog[0].verb == 'v' && got == e, info+fmt.Sprintf(" log=%v", hookLog))
 				q.eq("C17", "%w operand not rendered solely by the hook", lit(string(s)), lit("wrap: "+hookText), info)
+				// a %w directive carrying flags, a width or an explicit argument index is still a %w
+				for _, wf := range []struct {
+					f    string
+					args []interface{}
+				}{{"wrap: %+w", []interface{}{e}}, {"%-12w|", []interface{}{e}}, {"%[1]w", []interface{}{e}}, {"%[2]w|%[1]v", []interface{}{5, e}}, {"% w", []interface{}{e}}} {
+					hookLog = nil
+					var got2 error
+					p, _ := try(func() { _, got2 = redact.HelperForErrorf(wf.f, wf.args...) })
+					if !p {
+						q.truth("C17", "%w with flags/width/index: hook not called once with verb 'v' for the operand", len(hookLog) == 1 && hookLog[0].verb == 'v' && hookLog[0].err == e && got2 == e, info+fmt.Sprintf(" format=%q log=%v", wf.f, hookLog))
+					}
+				}
 			}
 		}
 	}
